@@ -23,7 +23,7 @@ package c07
 //
 // Every code point travels (1) as a header value, embedded ("a<cp>b") and alone,
 // through ingress, admin publish and Store.Enqueue, and (2) as the payload
-// through ingress and publish; one message carries all of them at once.
+// through ingress and publish; one value / one payload carries all of them at once.
 // A value with a C0 control (other than HTAB) or DEL cannot be written into an
 // HTTP/1.1 header field (net/http refuses the request before any handler runs,
 // and refuses to send it to a push target), so such values skip ingress and
@@ -168,15 +168,10 @@ func unicodeCases() (all, pullOnly []mcase) {
 			pullOnly = append(pullOnly, c)
 			return
 		}
-		if in == "store" { // push flows take store-direct messages as well
-			all = append(all, c)
-			return
-		}
 		all = append(all, c)
 	}
 	var joined []byte
-	var many []hdr
-	for k, cp := range alpha {
+	for _, cp := range alpha {
 		if !utf8.ValidRune(cp.r) {
 			panic("alphabet holds an invalid rune")
 		}
@@ -193,9 +188,6 @@ func unicodeCases() (all, pullOnly []mcase) {
 		}
 		if wireValue(enc) {
 			joined = append(joined, enc...)
-			if cp.r != ' ' && cp.r != '\t' && len(many) < 40 && (cp.r >= 0x80 || cp.label == "boundary") {
-				many = append(many, hdr{fmt.Sprintf("X-Cp-%d", k), enc + "x" + enc})
-			}
 		}
 	}
 	// payload-only cases for the code points that cannot be header values on the wire (ingress has no case above)
@@ -205,14 +197,13 @@ func unicodeCases() (all, pullOnly []mcase) {
 			all = append(all, mcase{Sweep: "unicode", In: "ingress", Route: "std", Frame: "cl", Hdrs: []hdr{atoms[0]}, Atoms: "u" + cp.label + "/body", BodyHex: hex.EncodeToString([]byte(enc))})
 		}
 	}
-	// everything at once: one value with every wire-valid code point, and one message with many such headers
+	// everything at once: one value (and one payload) with every wire-valid code point
 	for _, in := range []string{"ingress", "publish", "store"} {
 		c := mcase{Sweep: "unicode", In: in, Route: "std", Hdrs: []hdr{{cpHeader, "[" + string(joined) + "]"}}, Atoms: "uall", BodyHex: hex.EncodeToString(joined)}
-		m := mcase{Sweep: "unicode", In: in, Route: "std", Hdrs: append([]hdr{}, many...), Atoms: "umany", BodyHex: "00ff"}
 		if in == "ingress" {
-			c.Frame, m.Frame = "chunked", "cl"
+			c.Frame = "chunked"
 		}
-		all = append(all, c, m)
+		all = append(all, c)
 	}
 	return all, pullOnly
 }
